@@ -274,6 +274,7 @@ fn run_shard(ctx: &ShardCtx, acc: &mut Acc) {
             }
         }
     };
+    if !ctx.fuzzing() {
     // ---- exhaustive: length 1 (shard 0) and length 2 (first byte split over the shards) ------------
     if shard == 0 {
         for a in 0..=255u8 {
@@ -361,6 +362,7 @@ fn run_shard(ctx: &ShardCtx, acc: &mut Acc) {
             let r = check_bytes(&code[..c], acc);
             report(r, acc);
         }
+    }
     }
     // ---- random strings -------------------------------------------------------------------------
     let cases = ctx.tier.pick(5_000, 200_000);
